@@ -646,9 +646,11 @@ func (a *agg) finish(t0 time.Time, scratch string, planned int) int {
 		"wall_s":      time.Since(t0).Seconds(),
 		"violations":  len(unlisted),
 	}
-	os.MkdirAll(filepath.Join(verifDir, "evidence"), 0755)
+	// runs against seeded mutations (scripts/seed_check.sh) keep their evidence away from the committed files
+	evDir := env("VERIF_EVIDENCE_DIR", filepath.Join(verifDir, "evidence"))
+	os.MkdirAll(evDir, 0755)
 	eb, _ := json.MarshalIndent(ev, "", " ")
-	ioutil.WriteFile(filepath.Join(verifDir, "evidence", a.sp.Prop+".json"), eb, 0644)
+	ioutil.WriteFile(filepath.Join(evDir, a.sp.Prop+".json"), eb, 0644)
 
 	// ---- verdict lines
 	for _, v := range listed {
